@@ -212,25 +212,37 @@ Definition C03_invert_stmt : Prop :=
     (3) (count,start) and (count,end), whose ratio comes from brentq: for every sound oracle, whenever the
         mirrored call is answered too, same count and reciprocal expansion (the two defining equations are mirror
         images and have one solution);
-    (4) (total,start) (total,end) (start,end), whose count comes from brentq: the mirrored defining equation
-        has the same root, roots > 1 are unique, and the near-uniform branch sees the same smallest cell - so
-        every sound oracle rounds the same real number.
-    Missing: totality of the oracle on the mirrored input (3, 4), the assembly of (4) into the three plans,
-    ratios inside the tolerance band (|r-1| <= TOL < |1/r-1| is possible), and the single cell: count = 1 with
-    start_size < L is accepted while its inverse (count = 1, end_size) raises - a finding, see notes/C03.md. *)
+    (4) (total,start) (total,end) (start,end), whose count comes from brentq ([invert_root_law]): for every sound
+        oracle, whenever the inverted chop is accepted, same count and reciprocal expansion - the near-uniform branch
+        sees the same smallest cell, the mirrored defining equation has the same root, roots > 1 are unique and
+        roots < 1 all mean one cell ([band_sym]: the near-uniform branch is entered on both sides or on neither);
+    (5) all ten pairs at once ([invert_full_cond_law]): the FULL statement above under two explicit hypotheses,
+        [inv_ok tau d] (given ratios / sizes positive, [band_ok] for a given c2c, [band_sym] for the total
+        expansion) and [calculate (invert d) <> None] (the inverted chop is accepted).
+    Remaining hypotheses, precisely:
+      - acceptance of the inverted chop for the five pairs that go through brentq (for the closed-form pairs it is
+        proved, (2)): it needs scipy's brentq to converge on the mirrored input, which no property of an arbitrary
+        oracle gives, and it is FALSE for count = 1 with start_size < L, whose inverse (count = 1, end_size) raises -
+        a finding, see notes/C03.md;
+      - inside the tolerance band (|r-1| <= TOL < |1/r-1|, or |E-1| < TOL <= |1/E-1|) the code replaces the ratio
+        by 1 on one side only; there the law holds up to n*TOL (validated by the oracle, not proved). *)
 Definition C03_invert_partial_stmt : Prop :=
   (forall L n E, 0 < E -> bm_cells L n (/ E) = rev (bm_cells L n E)) /\
   invert_closed_law rel_table /\
   invert_oracle_law rel_table /\
+  invert_root_law rel_table /\
+  invert_full_cond_law rel_table /\
   (forall L E s x x', 0 < E -> E <> 1 -> 0 < s -> 1 < x -> 1 < x' ->
      Gcode x E = L / s -> Gcode x' (/ E) = L / (s * E) -> x' = x) /\
   (forall E s, 0 < E -> E <> 1 -> d_min (/ E) (s * E) = d_min E s).
 Theorem C03_invert_partial : C03_invert_partial_stmt.
 Proof.
-  split; [|split; [|split; [|split]]].
+  split; [|split; [|split; [|split; [|split; [|split]]]]].
   - intros. apply bm_cells_rev; assumption.
   - exact (invert_closed rel_table C03_calculate_is_plan).
   - exact (invert_oracle rel_table C03_calculate_is_plan).
+  - exact (invert_root rel_table C03_calculate_is_plan).
+  - exact (invert_full_cond rel_table C03_calculate_is_plan).
   - exact count_root_mirror_unique.
   - exact d_min_mirror.
 Qed.
